@@ -584,7 +584,20 @@ pub fn runs_for(prop: &str, tier: Tier) -> u64 {
         "C20" => (200_000, 4_000_000),
         _ => (0, 0),
     };
-    let n = if tier == Tier::Quick { q } else { t };
+    let mut n = if tier == Tier::Quick { q } else { t };
+    // VERIF_SCALE (e.g. 0.2) shrinks the seeded part of a batch for sensitivity sweeps; the
+    // registered commands never set it
+    if let Some(f) = std::env::var("VERIF_SCALE").ok().and_then(|s| s.parse::<f64>().ok()) {
+        let fixed = match prop {
+            "C05" => C05_EXHAUSTIVE_RUNS,
+            "C09" => 8_192,
+            "C11" => 10_752,
+            _ => 0,
+        };
+        if f > 0.0 && n > fixed {
+            n = fixed + (((n - fixed) as f64) * f).max(1.0) as u64;
+        }
+    }
     // the build without `batch` only matters where draw_iter is involved; it runs a smaller share
     if batch {
         n
